@@ -481,17 +481,104 @@ def rule_reroute_loop(chk, prog):
     (r.bad if bad else r.ok)("flag delegate", f3.where(), bad or "")
 
 
+def rule_retry_signal(chk, prog):
+    r = chk.rule("RETRY-SIGNAL-KEPT", "ConnRef::generatePath clears m_needs_reroute_flag BEFORE the path search; the search (generateStandardPath / "
+                 "generateCheckpointsPath) raises it again when it finds no valid path (`retry in later transactions`), and no store of false is "
+                 "reachable after the search -- otherwise a connector that fell back to a straight line keeps that invalid route for ever", floor=2)
+    fn = prog.fn("Avoid::ConnRef::generatePath")
+    g = CFG(fn)
+    search = [c for c in calls(fn) if c.get("cname") in ("Avoid::ConnRef::generateStandardPath", "Avoid::ConnRef::generateCheckpointsPath")]
+    clears = [node for lhs, node, op in writes(fn) if written_field(lhs)[0] == "Avoid::ConnRef::m_needs_reroute_flag" and literal_value(node["ch"][1]) == "false"]
+    if len(search) != 2:
+        raise AnalysisBroken("generatePath: the two path-search calls were not found")
+    r.count()
+    bad = None
+    if not clears:
+        bad = "the flag is never cleared: every connector is rerouted in every transaction"
+    for c in clears:
+        for sc in search:
+            if g.search([g.after(sc["id"])], targets=[c["id"]]) is not None:
+                bad = bad or "m_needs_reroute_flag is cleared after %s, which wipes the search's `no valid path, retry later` signal" % sc["cname"].split("::")[-1]
+    for sc in search:
+        if clears and g.must_precede([c["id"] for c in clears], sc["id"]) is not None:
+            bad = bad or "the path search can run without the flag having been cleared first"
+    (r.bad if bad else r.ok)("flag cleared before the search only", fn.loc(clears[0]) if clears else fn.where(), bad or "")
+    # the searches do raise it on failure
+    r.count()
+    raised = []
+    for q in ("Avoid::ConnRef::generateStandardPath", "Avoid::ConnRef::generateCheckpointsPath"):
+        f = prog.fn(q)
+        ws = [node for lhs, node, op in writes(f) if written_field(lhs)[0] == "Avoid::ConnRef::m_needs_reroute_flag" and literal_value(node["ch"][1]) == "true"]
+        if ws:
+            raised.append(q)
+    (r.ok if len(raised) == 2 else r.bad)("search raises the flag on failure", fn.where(), "" if len(raised) == 2 else
+                                          "only %s set m_needs_reroute_flag when no path is found" % raised)
+
+
+SKIP_OK = {
+    "conn.m_route.empty()": "uninitialised connector: nothing to compare",
+    "conn.m_needs_reroute_flag": "already marked for rerouting",
+    "(conn.routingType() != Avoid::ConnType_PolyLine)": "the lower-bound test is for polyline connectors only; orthogonal ones are rerouted anyway",
+}
+
+
+def rule_skip_conditions(chk, prog):
+    r = chk.rule("SELECTIVE-SKIPS", "markPolylineConnectorsNeedingReroutingForDeletedObstacle examines EVERY connector: the per-connector loop is left "
+                 "early (`continue`) only for the reviewed reasons -- no route yet, already flagged, not a polyline connector -- and the function "
+                 "returns early only under RubberBandRouting; any further quick-reject decides `cannot have a shorter route now` without the "
+                 "lower-bound test and needs its own argument", floor=3)
+    fn = prog.fn("Avoid::Router::markPolylineConnectorsNeedingReroutingForDeletedObstacle")
+    loops = [n for n in fn.nodes() if n.get("k") == "ForStmt"]
+    outer = [l for l in loops if not any(a.get("k") == "ForStmt" for a in fn.ancestors(l))]
+    if len(outer) != 1:
+        raise AnalysisBroken("per-connector loop not recognised")
+    outer = outer[0]
+    k = 0
+    for n in walk(outer["body"]):
+        if n.get("k") not in ("ContinueStmt", "BreakStmt", "ReturnStmt"):
+            continue
+        inner = [a for a in fn.ancestors(n) if a.get("k") in ("ForStmt", "WhileStmt", "DoStmt") and a is not outer and a.get("id") != outer.get("id")]
+        if inner and n.get("k") != "ReturnStmt":
+            continue            # leaves an inner loop only
+        k += 1
+        r.count()
+        pc = path_condition(fn, n, inline=False)
+        ats = [a for a in atoms(pc) if ".end()" not in a and a not in ("RubberBandRouting",) and " != end)" not in a]
+        # an else-if chain lists the earlier tests negated: only the positive test that leads here has to be a reviewed reason
+        from ..rules.guards import evalf
+        unknown = [a for a in ats if a not in SKIP_OK]
+        inst = "%s at line %s" % (n["k"][:-4].lower(), n.get("l"))
+        if unknown:
+            r.bad(inst, fn.loc(n), "the connector is skipped under a condition involving %s: not one of the reviewed reasons" % unknown[:2])
+        elif not any(entails(pc, ("atom", a)) for a in ats):
+            r.bad(inst, fn.loc(n), "the connector is skipped under %s" % show(pc)[:120])
+        else:
+            r.ok(inst, fn.loc(n))
+    if k < 3:
+        raise AnalysisBroken("SELECTIVE-SKIPS: fewer skip statements than reviewed (%d)" % k)
+    rets = [n for n in fn.nodes() if n.get("k") == "ReturnStmt" and not any(a.get("id") == outer.get("id") for a in fn.ancestors(n))]
+    r.count()
+    bad = None
+    for rt in rets:
+        pc = path_condition(fn, rt, inline=False)
+        if not entails(pc, ("atom", "RubberBandRouting")):
+            bad = "the function returns before looking at any connector under %s" % show(pc)[:100]
+    (r.bad if bad else r.ok)("early return", fn.where(), bad or "")
+
+
 def run(chk):
     prog = chk.load()
-    rule_route_dist(chk, prog)
-    rule_stateless(chk, prog)
-    rule_crossing_point(chk, prog)
-    rule_phases(chk, prog)
-    rule_entry(chk, prog)
-    rule_reroute_loop(chk, prog)
+    chk.guard(rule_route_dist, chk, prog)
+    chk.guard(rule_stateless, chk, prog)
+    chk.guard(rule_crossing_point, chk, prog)
+    chk.guard(rule_skip_conditions, chk, prog)
+    chk.guard(rule_retry_signal, chk, prog)
+    chk.guard(rule_phases, chk, prog)
+    chk.guard(rule_entry, chk, prog)
+    chk.guard(rule_reroute_loop, chk, prog)
     from .c15 import rule_action_identity
-    rule_action_identity(chk, prog)
+    chk.guard(rule_action_identity, chk, prog)
     from .c04 import rule_blocker_recorded
     from .c03 import rule_blocking_scan
-    rule_blocker_recorded(chk, prog)
-    rule_blocking_scan(chk, prog)
+    chk.guard(rule_blocker_recorded, chk, prog)
+    chk.guard(rule_blocking_scan, chk, prog)
